@@ -30,6 +30,8 @@ type entry struct {
 	// high (the regular-expression scanners execute ~10^3 counted blocks per input byte, so the
 	// 10^5 floor of the rule is reached at a few hundred bytes already); 0 = no cap of its own
 	quickBytes int
+	// thoroughBytes is the same for the thorough tier (0 = 1 MiB; ignored when toLimit is set)
+	thoroughBytes int
 	// toLimit: in the thorough tier the ladder of this entry point goes up to the documented limits
 	// (10 MiB / 1M tokens); the others stop at 1 MiB (the instrumented binary needs ~1 us per byte and
 	// there are 800 ladders)
@@ -106,11 +108,11 @@ func entries() []entry {
 			tree: (func(t *ast.AST) string { sink = t.Format(ast.CompactStyle()); return "ok" })},
 		{name: "Scan", doc: "pkg/sql/security Scanner.Scan(tree)", needAST: true,
 			tree: (func(t *ast.AST) string { sink = security.NewScanner().Scan(t); return "ok" })},
-		{name: "ScanSQL", doc: "pkg/sql/security Scanner.ScanSQL(text)", quickBytes: 1 << 14,
+		{name: "ScanSQL", doc: "pkg/sql/security Scanner.ScanSQL(text)", quickBytes: 1 << 14, thoroughBytes: 1 << 18,
 			prepare: func(sql string) (func() string, bool) {
 				return func() string { sink = security.NewScanner().ScanSQL(sql); return "ok" }, true
 			}},
-		{name: "TextScan", doc: "pkg/security Scanner.Scan(text)", quickBytes: 1 << 14,
+		{name: "TextScan", doc: "pkg/security Scanner.Scan(text)", quickBytes: 1 << 14, thoroughBytes: 1 << 18,
 			prepare: func(sql string) (func() string, bool) {
 				return func() string { sink = textsec.NewScanner().Scan(sql); return "ok" }, true
 			}},
